@@ -354,7 +354,9 @@ func mutateSDL(r *rng.R, toks []sdlTok) []sdlTok {
 	case 5, 6: // … of an argument list
 		return mutateEntries(r, toks, "(")
 	case 7, 8: // directive application: delete, duplicate, copy elsewhere, retarget
-		sites := tokIdx(toks, func(i int) bool { return toks[i].s == "@" && toks[i].kind == 'p' && prev(i) != "directive" && i+1 < len(toks) && toks[i+1].kind == 'n' })
+		sites := tokIdx(toks, func(i int) bool {
+			return toks[i].s == "@" && toks[i].kind == 'p' && prev(i) != "directive" && i+1 < len(toks) && toks[i+1].kind == 'n'
+		})
 		if len(sites) == 0 {
 			return insertDirectiveUse(r, toks, dirs)
 		}
@@ -563,7 +565,9 @@ func mutateSDL(r *rng.R, toks []sdlTok) []sdlTok {
 		}
 		return append(blk, toks...)
 	case 22: // directive definitions: change a location, add/remove `repeatable`, redeclare a builtin
-		sites := tokIdx(toks, func(i int) bool { return toks[i].kind == 'n' && (prev(i) == "on" || prev(i) == "|") && isUpper(toks[i].s) })
+		sites := tokIdx(toks, func(i int) bool {
+			return toks[i].kind == 'n' && (prev(i) == "on" || prev(i) == "|") && isUpper(toks[i].s)
+		})
 		if len(sites) == 0 || r.Chance(1, 4) {
 			d := rng.Pick(r, builtinDirectives)
 			if r.Bool() && len(dirs) > 0 {
